@@ -203,3 +203,42 @@ fn find_handles_setops() {
     }}
     println!("NO-WITNESS find_handles_setops");
 }
+
+/// clauses Handle::reindex / ReindexStore::{gaps,reindex}  (C03): after removing any subset of 6 annotations and compacting,
+/// every remaining id resolves to the item that carries it, and that item knows its position
+#[test]
+fn find_reindex_ids() {
+    let n = 6usize;
+    for mask in 0u32..(1 << n) {
+        let mut store = AnnotationStore::default()
+            .with_resource(TextResourceBuilder::new().with_id("r").with_text("hello world")).unwrap()
+            .with_dataset(AnnotationDataSetBuilder::new().with_id("d")).unwrap();
+        for i in 0..n {
+            store.annotate(AnnotationBuilder::new().with_id(format!("A{}", i))
+                .with_target(SelectorBuilder::textselector("r", Offset::simple(i, i + 1)))
+                .with_data("d", "k", "v")).unwrap();
+        }
+        for i in 0..n {
+            if mask & (1 << i) != 0 {
+                let h = store.annotation(format!("A{}", i).as_str()).unwrap().handle();
+                store.remove(h).unwrap();
+            }
+        }
+        let store = store.reindex();
+        for i in 0..n {
+            let id = format!("A{}", i);
+            let found = store.annotation(id.as_str());
+            let removed = mask & (1 << i) != 0;
+            let ok = match &found {
+                None => removed,
+                Some(a) => !removed && a.id() == Some(id.as_str())
+                    && <AnnotationStore as StoreFor<Annotation>>::get(&store, a.handle()).map(|x| x.id() == Some(id.as_str())).unwrap_or(false),
+            };
+            if !ok {
+                println!("WITNESS {{\"clause\":\"reindex keeps ids\",\"annotations\":{},\"removed_mask\":{},\"lookup\":\"{}\",\"found_id\":\"{:?}\",\"found_handle\":\"{:?}\"}}", n, mask, id, found.as_ref().map(|a| a.id().map(|s| s.to_string())), found.as_ref().map(|a| a.handle()));
+                return;
+            }
+        }
+    }
+    println!("NO-WITNESS find_reindex_ids");
+}
